@@ -1618,6 +1618,11 @@ def compare_module(model, obs, cmds=()):
     return diffs
 
 
+def unresolved_units(obs):
+    """described parameters whose datainfo still shows a `$` somewhere (for the report line only)"""
+    return [[p['name'], p['datainfo']] for p in obs['params'] if p['described'] is not None and '$' in json.dumps(p['datainfo'])]
+
+
 def violation_sig(judge, obs, mo):
     """short stable signature of what fails (Python only names it; the verdict is Lean's)"""
     if not judge['whole']:
@@ -1627,6 +1632,8 @@ def violation_sig(judge, obs, mo):
     if not judge['modprops']:
         return 'C10:module-property-not-applied'
     if not judge['applied']:
+        if judge.get('mainunit') and unresolved_units(obs):
+            return 'C10:main-unit-not-applied'
         bad = [p['name'] for p in obs['params'] if p['described'] is not None and p['reach'] != [p['described']]]
         bad += [p['name'] for p in obs['params'] if p['described'] is None and p['reach']]
         if bad:
@@ -2037,6 +2044,8 @@ def run(ctx):
                 start = '' if mo['gen'] == 1 else ' at the SECOND start from the same loaded configuration'
                 res.violations.append({'sig': sig,
                                        'what': f'{sig}: module {mo["name"]} (class {mo["spec"]["id"]}){start}, cfg: {text} -> '
+                                               + (f'main unit {judge["mainunit"]!r} from the cfg, described with `$` left: '
+                                                  f'{json.dumps(unresolved_units(obs))[:400]} ' if sig == 'C10:main-unit-not-applied' else '') +
                                                f'registered={obs["registered"]} errors={obs["errors"]} '
                                                f'modprops={obs["modprops"]} judge={judge}',
                                        'case': vcase})
